@@ -158,7 +158,7 @@ fn eval(c: &Case) -> Option<Outcome> {
     let parsed: Vec<(String, NetworkFilter)> = c
         .rules
         .iter()
-        .filter_map(|l| NetworkFilter::parse(l, true, Default::default()).ok().map(|f| (l.clone(), f)))
+        .filter_map(|l| NetworkFilter::parse(l.trim(), true, Default::default()).ok().map(|f| (l.trim().to_string(), f)))
         .collect();
     let bad_ids: Vec<u64> = parsed.iter().filter(|(_, f)| f.is_badfilter()).map(|(_, f)| f.get_id_without_badfilter()).collect();
     let mut matching = vec![];
